@@ -662,6 +662,45 @@ def homo(chk, ctx, rf):
         # the variable receiving argmin(list_mem)
         for conds, items in production_paths(g, dname):
             calls = [x for x in items if not isinstance(x, tuple) and x.kind == "call"]
+            if len(items) == 1 and len(calls) == 1:
+                # the production taken when no split is better: one inserted sequence, whose cost (its table entry) must
+                # be the fallback term the decision compared the candidates with
+                it = items[0]
+                cand = [d for d in decs if d["node"].lineno < it.node.lineno and d.get("fallback") is not None]
+                tab = CALL_TABLE.get(it.callee)
+                if cand and tab is not None and it.shift is None:
+                    d = max(cand, key=lambda x: x["node"].lineno)
+                    pbj = builder(tname)
+                    ren = dict(INDEX_NAMES)
+                    ren.update(path_constants(dfn, d["node"]))
+                    pbj.rename = ren
+                    params = [a.arg for a in live.funcs[it.callee][1].args.args]
+                    bound = {p: a for p, a in zip(params, it.call.args)}
+                    bound.update({k.arg: k.value for k in it.call.keywords if k.arg})
+                    cons = f"{drel[:-3].replace('/', '.')}.{dname}#fallback-production[{decs.index(d)}]"
+                    try:
+                        idx = [pstr(pbj.poly(bound[p])) for p in tab[1]]
+                    except KeyError:
+                        chk.decide("C07.HOMO", cons, None, f"cannot bind {tab[1]} for {it.callee}", rel=drel, node=it.node)
+                        continue
+                    total = patom(tab[0] + "".join(f"[{i}]" for i in idx))
+                    same = pkey(total) == d["fallback"]
+                    if not same and len(cand) > 1:
+                        # several decisions (variants of one merged test) precede the production: it is right if it
+                        # matches one of them, undecided otherwise
+                        if any(pkey(total) == x["fallback"] for x in cand):
+                            same = True
+                        else:
+                            chk.decide("C07.HOMO", cons, None, f"{it!r} costs {pstr(total)}; {len(cand)} decisions with a fallback precede "
+                                       "it, none with this term", rel=drel, node=it.node)
+                            continue
+                    # decision and production must sit under the same path constants (`if K == 0:`), otherwise the
+                    # decision found by line order may belong to another case
+                    paired = path_constants(dfn, d["node"]) == path_constants(dfn, it.node)
+                    chk.decide("C07.HOMO", cons, True if same else (None if (not paired or has_raw(d["fallback"]) or has_raw(total)) else False),
+                               f"without a split the builder emits {it!r}, which costs {pstr(total)}; the decision compared the "
+                               f"candidates with {pstr(dict(d['fallback']))}", rel=drel, node=it.node)
+                continue
             if len(calls) < 2 or any(isinstance(x, tuple) for x in items):
                 continue
             # this is a split production: find the decision whose list_mem precedes it
